@@ -128,10 +128,19 @@ func (c *Ctx) kernel(name string, inline ...string) *Result {
 	}
 	en := NewEngine(c.P)
 	set := map[*ssa.Function]bool{}
+	excl := map[*ssa.Function]bool{}
 	all := false
 	for _, s := range inline {
 		if s == "*" {
 			all = true
+			continue
+		}
+		if strings.HasPrefix(s, "-") {
+			// excluded from inlining: a sub-kernel analysed on its own. An exclusion that no longer resolves is
+			// harmless (the function is gone, so nothing is left un-inlined).
+			if f := c.P.Fn(s[1:]); f != nil {
+				excl[f] = true
+			}
 			continue
 		}
 		if f := c.P.Fn(s); f != nil {
@@ -139,10 +148,13 @@ func (c *Ctx) kernel(name string, inline ...string) *Result {
 		}
 	}
 	en.Inline = func(caller, callee *ssa.Function, depth int) bool {
-		if all {
+		if callee.Parent() != nil {
 			return true
 		}
-		if callee.Parent() != nil {
+		if excl[callee] {
+			return false
+		}
+		if all {
 			return true
 		}
 		return set[callee]
